@@ -221,8 +221,18 @@ fn bdd_bfs(atoms: &[Atom], max_rounds: usize, out: &mut Out) -> BfsResult {
         if done == n || rounds >= max_rounds {
             break;
         }
+        // a broken operation makes the reachable set grow without bound: once violations are on record (or the set is
+        // far beyond any closure seen on a correct implementation) the search of this configuration stops
+        if out.seen_keys.values().sum::<usize>() > 200 || n > 400_000 {
+            break;
+        }
         rounds += 1;
+        let mut aborted = false;
         for i in 0..n {
+            if out.seen_keys.values().sum::<usize>() > 200 || all.len() > 1_000_000 {
+                aborted = true;
+                break;
+            }
             let jstart = 0;
             for j in jstart..n {
                 if i < done && j < done {
@@ -247,6 +257,9 @@ fn bdd_bfs(atoms: &[Atom], max_rounds: usize, out: &mut Out) -> BfsResult {
                     add(r, &mut seen, &mut all, out, op);
                 }
             }
+        }
+        if aborted {
+            break;
         }
         for i in done..n {
             let c = all[i].0.complement();
@@ -345,10 +358,10 @@ fn size2(seed: u64) -> Vec<T> {
 }
 
 /// list algebra: A ranges over every intersection and union of two list types (arrays, tuples of length 0-2 and
-/// 3 with rest, with and without rest, over number / 1 / string), both operand orders; B over never and the list
+/// 3 with rest, with and without rest, over number / 1 / string / string|number), both operand orders; B over never and the list
 /// types themselves (quick: a fixed dozen of them)
 fn list_types() -> Vec<T> {
-    let l = vec![T::Num, T::NumLit(1), T::Str];
+    let l = vec![T::Num, T::NumLit(1), T::Str, T::Union(vec![T::Str, T::Num])];
     let mut out = vec![T::Tup(vec![], None)];
     for x in &l {
         out.push(T::Arr(Box::new(x.clone())));
@@ -753,7 +766,8 @@ fn reference_subtype(defs: &Defs, a: &T, b: &T, cache: &mut ExactCache) -> (Tri,
     let mut universe = 0;
     for (ri, reading) in [OptReading::AbsentOnly, OptReading::AbsentOrNull].into_iter().enumerate() {
         let r = Reference { defs, opt: reading };
-        let max_list = (max_tuple_len(b) + 1).max(1).min(3);
+        // a witness against a union of list types may need one element per alternative it has to escape
+        let max_list = (max_tuple_len(b) + 1).max(list_union_members(b, defs, 6)).max(1).min(3);
         let entry = cache.entry((ri as u8, max_list)).or_insert_with(|| {
             let mut en = Enumerator {
                 defs,
@@ -1097,6 +1111,41 @@ fn expected_list_index(x: &T, k: &T) -> Option<T> {
                 r.as_ref().map(|r| (**r).clone())
             }
         }
+        // object operands: the declared type of a required property (an optional one brings `undefined` in: not
+        // modelled), the index signature's value type for a key no property declares; an intersection asks every member
+        // that says something about the key, a union asks all of its members
+        (T::Obj(ps, ix), T::StrLit(key)) => match ps.iter().find(|(n, _, _)| n == key) {
+            Some((_, false, t)) => Some(t.clone()),
+            Some((_, true, _)) => None,
+            None => ix.as_ref().map(|v| (**v).clone()),
+        },
+        (T::Inter(ms), T::StrLit(_)) => {
+            if !ms.iter().all(|m| matches!(m, T::Obj(_, _) | T::Inter(_) | T::Union(_))) {
+                return None;
+            }
+            let mut parts = vec![];
+            for m in ms {
+                if let T::Obj(ps, _) = m {
+                    if let T::StrLit(key) = k {
+                        if ps.iter().any(|(n, o, _)| n == key && *o) {
+                            return None;
+                        }
+                    }
+                }
+                if let Some(e) = expected_list_index(m, k) {
+                    parts.push(e);
+                }
+            }
+            match parts.len() {
+                0 => None,
+                1 => parts.pop(),
+                _ => Some(T::Inter(parts)),
+            }
+        }
+        (T::Union(ms), T::StrLit(_)) => {
+            let parts: Option<Vec<T>> = ms.iter().map(|m| expected_list_index(m, k)).collect();
+            parts.filter(|p| !p.is_empty()).map(T::Union)
+        }
         (T::Tup(p, r), T::Num) => {
             let mut m: Vec<T> = p.clone();
             if let Some(r) = r {
@@ -1127,6 +1176,19 @@ fn c07(tier: &str, seed: u64) -> Value {
     terms.push(T::Union(vec![T::Num, T::Str, T::Null]));
     terms.push(T::Union(vec![obj(vec![("a", false, T::Str)], None), obj(vec![("b", false, T::Num)], None)]));
     terms.push(T::Union(vec![T::Tup(vec![T::Str], Some(Box::new(T::Any))), T::Null]));
+    // intersections and unions of objects that declare the same key with structured types built from different atoms
+    {
+        let oa = |t: T| obj(vec![("a", false, t)], None);
+        let inner = [obj(vec![("a", false, T::Str)], None), obj(vec![("b", false, T::Num)], None), T::Arr(Box::new(obj(vec![("a", false, T::Str)], None))), T::Arr(Box::new(obj(vec![("b", false, T::Num)], None))), T::Tup(vec![T::Str], None), T::Tup(vec![T::Str], Some(Box::new(T::Num))), T::Str, T::StrLit("a".into())];
+        for x in &inner {
+            for y in &inner {
+                terms.push(T::Inter(vec![oa(x.clone()), obj(vec![("a", false, y.clone()), ("b", false, T::Num)], None)]));
+                terms.push(T::Union(vec![oa(x.clone()), oa(y.clone())]));
+            }
+        }
+        terms.push(T::Inter(vec![oa(T::Str), obj(vec![("b", false, T::Num)], None)]));
+        terms.push(T::Inter(vec![obj(vec![], Some(T::Str)), obj(vec![("b", false, T::StrLit("b".into()))], None)]));
+    }
     if thorough {
         terms.extend(size2(seed).into_iter().step_by(3));
     } else {
